@@ -3,7 +3,7 @@ import concurrent.futures as cf
 import json
 import os
 
-from vlib import Infra, action_sig, read_ndjson, save_replay, tlc_mc, tlc_sim, write_ndjson, write_evidence, open_findings, ROOT, log
+from vlib import Infra, action_sig, read_ndjson, save_replay, tlc_mc, tlc_sim, tlc_trace, write_ndjson, write_evidence, open_findings, ROOT, log
 
 # configuration x concretisation classes: (name, concretisation, manifest settings, behaviour limit factor)
 CLASSES = [
@@ -21,12 +21,29 @@ def replay_class(ctx, behs, cls, flags, tag):
     inp = os.path.join(d, 'in.ndjson')
     out = os.path.join(d, 'out.ndjson')
     write_ndjson(inp, behs[:n])
+    hooks = os.path.join(d, 'hooks.ndjson')
+    if os.path.exists(hooks):
+        os.remove(hooks)
     ctx.run_kvh(['replay-store', '-in', inp, '-out', out, '-work', os.path.join(d, 'db'), '-class', conc,
-                 '-seed', str(ctx.seed), '-cfg', json.dumps(cfg)] + flags, timeout=1500)
+                 '-seed', str(ctx.seed), '-cfg', json.dumps(cfg)] + flags, timeout=1500, env={'VERIF_TRACE': hooks})
     res = read_ndjson(out)
     if len(res) != n:
         raise Infra(f'replay {name}: {len(res)} results for {n} behaviours')
-    return [(r, behs[r['b']]) for r in res if not r.get('ok')], n
+    mms = [(r, behs[r['b']]) for r in res if not r.get('ok')]
+    # the hook-event stream of the same run must follow the ordering rules of KevoStore's actions (TRACE_StoreProto)
+    if conc != 'big' and os.path.exists(hooks) and not mms:
+        ok, hw, st, outp = tlc_trace(ctx, 'TRACE_StoreProto', 'TRACE_StoreProto.cfg', hooks, timeout=600, tag=f'proto-{tag}-{name}')
+        ctx.notes['hook_events_validated'] = ctx.notes.get('hook_events_validated', 0) + st.get('distinct', 0)
+        if not ok:
+            if not hw:
+                raise Infra('hook trace rejected without a position:\n' + outp[-1500:])
+            lines = open(hooks).read().splitlines()
+            b = sum(1 for x in lines[:hw] if '"h.reset"' in x) - 1
+            ev = json.loads(lines[hw - 1]) if hw <= len(lines) else {}
+            prev = [json.loads(x).get('site') for x in lines[max(0, hw - 6):hw - 1]]
+            mms.append(({'b': b, 'step': -2, 'a': 'hooks', 'kind': 'order', 'key': ev.get('site'), 'exp': 'an event order KevoStore allows',
+                         'got': f"{ev.get('site')}(a={ev.get('a')}, b={ev.get('b')}) after {prev}"}, behs[b]))
+    return mms, n
 
 
 def reproduce(ctx, beh, cls, flags, first):
@@ -34,7 +51,7 @@ def reproduce(ctx, beh, cls, flags, first):
     again = 0
     for i in range(2):
         mm, _ = replay_class(ctx, [beh], (cls[0], cls[1], cls[2], 1.0), flags, f'repro{i}')
-        if mm and mm[0][0].get('step') == first.get('step') and mm[0][0].get('kind') == first.get('kind'):
+        if mm and mm[0][0].get('kind') == first.get('kind') and (mm[0][0].get('step') == first.get('step') or first.get('kind') == 'order'):
             again += 1
     return again == 2
 
@@ -84,6 +101,27 @@ def run_replays(ctx, prop, behs, flags, classes, tag):
             if len(ctx.violations) >= 5:
                 return total
     return total
+
+
+def selftest_hooks(ctx, behs):
+    """The hook-order validation must notice a reordered stream: move a sync behind the acknowledgement it covers."""
+    d = ctx.sub('replay-selftest-hooks')
+    inp, out, hooks = os.path.join(d, 'in.ndjson'), os.path.join(d, 'out.ndjson'), os.path.join(d, 'hooks.ndjson')
+    write_ndjson(inp, behs[:6])
+    ctx.run_kvh(['replay-store', '-in', inp, '-out', out, '-work', os.path.join(d, 'db'), '-class', 'ascii', '-cfg',
+                 json.dumps(CLASSES[1][2])], env={'VERIF_TRACE': hooks})
+    lines = open(hooks).read().splitlines()
+    idx = [i for i, x in enumerate(lines) if '"wal.sync.done"' in x and i + 1 < len(lines) and '"wal.append.done"' in lines[i + 1]]
+    if not idx:
+        raise Infra('hook self-test: no sync/ack pair in the stream')
+    i = idx[len(idx) // 2]
+    lines[i], lines[i + 1] = lines[i + 1], lines[i]
+    bad = os.path.join(d, 'swapped.ndjson')
+    open(bad, 'w').write('\n'.join(lines) + '\n')
+    ok, hw, st, outp = tlc_trace(ctx, 'TRACE_StoreProto', 'TRACE_StoreProto.cfg', bad, tag='proto-selftest')
+    if ok:
+        raise Infra('binding self-test failed: a hook stream with the acknowledgement before its sync was accepted')
+    ctx.notes['hook_selftest'] = 'stream with an acknowledgement moved before its sync rejected at event %d' % hw
 
 
 def selftest_binding(ctx, behs, flags):
@@ -136,6 +174,7 @@ def check_C01(ctx):
     nontrivial(ctx, behs)
     ctx.samples = [behs[len(behs) // 2][:8]]
     selftest_binding(ctx, behs[-20:], [])
+    selftest_hooks(ctx, behs[-20:])
     ctx.traces += run_replays(ctx, 'C01', behs, ['-ballast', '24'], CLASSES, 'c01')
     ctx.evaluations = ctx.traces
     write_evidence(ctx, 'model_checking',
@@ -155,6 +194,7 @@ def check_C08(ctx):
     ctx.samples = [[{'a': s['a'], 'op': s['op'], 'seq': s['seq']} for s in behs[len(behs) // 2][:10]]]
     flags = ['-checkseq', '-checkwal']
     selftest_seq(ctx, behs[-20:], flags)
+    selftest_hooks(ctx, behs[-20:])
     ctx.traces += run_replays(ctx, 'C08', behs, flags, CLASSES[:3], 'c08')
     ctx.evaluations = ctx.traces
     write_evidence(ctx, 'model_checking',
